@@ -217,7 +217,7 @@ Definition ann_subjects (es : list entry) : list ann :=
   flat_map (fun e => match e_subj e with SAnn a => [a] | SRoa _ => [] end) es.
 
 Definition ok_report (c : case) (es : list entry) : bool :=
-  let held_b r := contains_roa_address (c_held c) (r_pl r) in
+  let held_b r := is_held_by (r_pl r) (c_held c) in
   let held := roas_held (c_roas c) (c_held c) (c_limit c) in
   let scope := scope_of (c_held c) (c_limit c) in
   let scoped := match c_store c with Some st => spec_scoped st (rs_v4 scope ++ rs_v6 scope) | None => [] end in
@@ -255,17 +255,26 @@ Definition ok_suggest (c : case) (es : list entry) (s : suggestion) : bool :=
                                                              && key_mem (enc_ann (mkAnn (pl_asn pl) (pl_pfx pl))) (map enc_ann scoped)
                                                    | Some _ => false end) new) (s_too_permissive s).
 
-(** ** Following the suggestion (not part of [c17_ok]: candidate finding F17e, see [AnalyserProofs.v])
+(** ** Following the suggestion (oracle [ok_suggest_preserves]; F17e, repaired in /repo by 992adfab)
 
-    The ROA configuration after the updates of [updates_of_suggestion] have been applied. Krill normalises
-    payloads to an explicit maximum length before applying them (src/server/ca/certauth.rs:2222), so a removal
-    hits every configured payload with the same (origin, prefix, effective maximum length). *)
+    The ROA configuration after the updates of [updates_of_suggestion] have been applied, removals first
+    ([Routes::process_updates], src/server/ca/roa.rs). Krill normalises payloads to an explicit maximum length
+    before applying them (src/server/ca/certauth.rs:2222), so a removal hits every configured payload with the
+    same (origin, prefix, effective maximum length). *)
 Definition payload_norm_eqb (a b : payload) : bool :=
   (pl_asn a =? pl_asn b) && prefix_eqb (pl_pfx a) (pl_pfx b) && (eff_max a =? eff_max b).
 Definition config_after (roas : list croa) (s : suggestion) : list payload :=
   let '(added, removed) := updates_of_suggestion s in
   filter (fun pl => negb (existsb (payload_norm_eqb pl) removed)) (map r_pl roas) ++ added.
 Definition vrp_of_payload (pl : payload) : vrp := mkVrp (pl_pfx pl) (eff_max pl) (pl_asn pl).
+
+(** F17b: the announcement is validated by two held payloads that differ only in [max_length = None] versus
+    [Some (prefix length)] (they are each other's "including" ROA; a krill CA cannot hold both, it stores
+    explicit maximum lengths). *)
+Definition twin_match (held : list croa) (a : ann) : bool :=
+  existsb (fun r => matched (vrp_of r) (route_of a)
+                    && existsb (fun o => payload_norm_eqb (r_pl r) (r_pl o) && negb (payload_eqb (r_pl r) (r_pl o))) held)
+          held.
 
 (** Every announcement in scope that is valid now is still valid after the suggestion has been followed. *)
 Definition ok_suggest_preserves (c : case) : bool :=
@@ -275,7 +284,7 @@ Definition ok_suggest_preserves (c : case) : bool :=
       let scope := scope_of (c_held c) (c_limit c) in
       let before := map vrp_of held in
       let after := map vrp_of_payload (config_after held s) in
-      forallb (fun a => (a_asn a =? 0) || negb (rov_code (rov before (route_of a)) =? 0)
+      forallb (fun a => negb (rov_code (rov before (route_of a)) =? 0) || twin_match held a
                         || (rov_code (rov after (route_of a)) =? 0))
               (spec_scoped st (rs_v4 scope ++ rs_v6 scope))
   | _, _ => true
